@@ -188,6 +188,8 @@ def apply_call(obj, name, args):
                         raise ProgramInvalid("the content recorded for %s is not what it holds" % a.h)
         args = [(RUNNER[0].target(a.h) if _is_synced(obj) else copy.deepcopy(a.plain)) if isinstance(a, Synced) else a
                 for a in args]
+    if _is_synced(obj):
+        args = [_realize(a) for a in args]
     if name in ("diternext", "liternext"):
         # an iterator that is advanced once and then KEPT (a stored zip, a loop left by an
         # exception): whatever it holds on to stays held
@@ -320,6 +322,35 @@ def apply_call(obj, name, args):
     if name == "lcmp":
         return CMP[args[0]](obj, _operand(obj, args[1]))
     raise ValueError(name)
+
+
+def _realize(v):
+    """The placeholder `Other(tag)` for 'a value that is neither a JSON scalar nor a collection' as an
+    actual object of varying type: numbers that are not JSON numbers (Fraction, Decimal, complex),
+    a set, bytes-free custom objects - whatever its type, the library must reject it."""
+    if isinstance(v, Other):
+        k = v.tag % 5
+        if k == 1:
+            import fractions
+            return fractions.Fraction(v.tag, 7)
+        if k == 2:
+            import decimal
+            return decimal.Decimal(v.tag)
+        if k == 3:
+            return complex(v.tag, 1)
+        if k == 4:
+            return frozenset([v.tag])
+        return v
+    if isinstance(v, list):
+        out = [_realize(x) for x in v]
+        return out if any(a is not b for a, b in zip(out, v)) else v
+    if isinstance(v, tuple):
+        out = [_realize(x) for x in v]
+        return tuple(out) if any(a is not b for a, b in zip(out, v)) else v
+    if isinstance(v, dict):
+        out = {k: _realize(x) for k, x in v.items()}
+        return out if any(out[k] is not v[k] for k in v) else v
+    return v
 
 
 def _form(args, n):
